@@ -34,7 +34,7 @@ VOCAB = [
 
 RULE = ("E1: every document with <= n nodes (n=3 quick, 4 thorough; the C01 "
         "alphabet incl. empty containers, nulls, mixed lists, int keys, "
-        "sets) x every path of <= 2 segments from a %d-item vocabulary "
+        "sets) plus a 64-document family of hashes holding hashes/lists x every path of <= 2 segments from a %d-item vocabulary "
         "(negative/out-of-range indexes and implicit indexes, slices past "
         "both ends, invalid regular expressions, container-literal terms, "
         "all keyword searches, collectors) in slash notation; entry points: "
@@ -118,6 +118,17 @@ def run_entry(doc, ptext, entry, res, text):
     return entry in ("optional", "set", "delete")
 
 
+def family_docs():
+    """Hashes holding hashes/lists: shapes the <= 3-node corpus cannot
+    reach (collector operands sharing keys)."""
+    S = lambda v: ["S", v, None]
+    inner = [["M", [], None], ["M", [["a", S(1)]], None],
+             ["M", [["a", S(1)], ["b", S(2)]], None], ["M", [["b", S(2)]], None],
+             ["M", [["a", S(2)]], None], ["L", [S(1)], None],
+             ["L", [S(1), S(2)], None], S(1)]
+    return [["M", [["a", x], ["b", y]], None] for x in inner for y in inner]
+
+
 def plan(tier, seed):
     shards = []
     nsh = 48
@@ -137,7 +148,7 @@ def run_shard(shard):
     res = Result()
     dl = Deadline(shard.get("budget_s"))
     if shard["kind"] == "grid":
-        specs = gdocs.specs_upto(shard["nmax"])
+        specs = gdocs.specs_upto(shard["nmax"]) + family_docs()
         paths = all_paths()
         for di in range(shard["part"], len(specs), shard["parts"]):
             if dl.expired():
